@@ -11,6 +11,15 @@
 //	         S  series             item = (block, series ref)
 //	matchers keys of LruMatchersCache (cacheKey):  item = (name, matcher type, value)
 //
+// Every index item is additionally driven through a real InMemoryIndexCache (fetch-before-store: a hit on an item that
+// was never stored is answered with another item's data, i.e. two items share the in-memory map key).
+//
+// EP label names are UTF-8 names: besides the token words, every name of 1..3 (thorough 4) characters over
+// {a b ! = ~ " ; : , ' ' {} (matcher syntax and key separators) with all four matcher types, pairs over names of that
+// alphabet, and the parse-back closure: the string the real code emits for a (small) matcher list is cut at every
+// operator occurrence and read back as ONE matcher (name = text before the operator, raw or unquoted), so a name that
+// spells out a whole matcher plus separator is always in the space, whatever format the builder uses.
+//
 // Alphabets are token alphabets: one token per separator / quoting character the key builders emit (':' for P,
 // ';' '"' '\' '=' '~' and the composite fragments `;a=` and `";a="` for EP, '=' '~' '!' for the matchers cache) plus an
 // ordinary letter, plus the characters a repair is likely to introduce ('\', ':', '1' for escaping / length prefixes), so
@@ -26,6 +35,7 @@ import (
 	"strings"
 	"testing"
 	"time"
+	"unicode/utf8"
 
 	"github.com/go-kit/log"
 	"github.com/oklog/ulid/v2"
@@ -60,27 +70,53 @@ type Case struct {
 	B *Item `json:"b,omitempty"`
 }
 
-// ident is the identity of an item (words never contain NUL, so the rendering is injective).
-func (it Item) ident() string {
-	var sb strings.Builder
-	sb.WriteString(it.Kind)
-	sb.WriteByte(byte('0' + it.Block))
-	sb.WriteString(it.Comp)
-	sb.WriteByte(0)
-	sb.WriteString(it.Name)
-	sb.WriteByte(0)
-	sb.WriteByte(byte('0' + it.Type))
-	sb.WriteString(it.Value)
-	sb.WriteByte(0)
-	sb.WriteString(strconv.FormatUint(it.ID, 10))
+// ident is the identity of an item (words never contain NUL, so the rendering is injective; parseIdent inverts it).
+func (it Item) ident() string { return string(it.appendIdent(nil)) }
+
+func (it Item) appendIdent(b []byte) []byte {
+	b = append(b, it.Kind...)
+	b = append(b, byte('0'+it.Block))
+	b = append(b, it.Comp...)
+	b = append(b, 0)
+	b = append(b, it.Name...)
+	b = append(b, 0, byte('0'+it.Type))
+	b = append(b, it.Value...)
+	b = append(b, 0)
+	b = strconv.AppendUint(b, it.ID, 10)
 	for _, m := range it.Ms {
-		sb.WriteByte(0)
-		sb.WriteString(m.N)
-		sb.WriteByte(0)
-		sb.WriteByte(byte('0' + m.T))
-		sb.WriteString(m.V)
+		b = append(b, 0)
+		b = append(b, m.N...)
+		b = append(b, 0, byte('0'+m.T))
+		b = append(b, m.V...)
 	}
-	return sb.String()
+	return b
+}
+
+// parseIdent rebuilds the item from its identity (the enumeration keeps identities only, 5x smaller than items).
+func parseIdent(id string) Item {
+	f := strings.Split(id, "\x00")
+	if len(f) < 4 || len(f)%2 != 0 {
+		panic("HARNESS-ERROR bad ident " + strconv.Quote(id))
+	}
+	var it Item
+	for _, k := range []string{"MC", "EP", "P", "S"} {
+		if strings.HasPrefix(f[0], k) {
+			it.Kind = k
+			break
+		}
+	}
+	rest := f[0][len(it.Kind):]
+	it.Block, it.Comp = int(rest[0]-'0'), rest[1:]
+	it.Name = f[1]
+	it.Type, it.Value = int(f[2][0]-'0'), f[2][1:]
+	it.ID, _ = strconv.ParseUint(f[3], 10, 64)
+	for i := 4; i < len(f); i += 2 {
+		it.Ms = append(it.Ms, M{N: f[i], T: int(f[i+1][0] - '0'), V: f[i+1][1:]})
+	}
+	if it.ident() != id {
+		panic("HARNESS-ERROR ident does not round-trip " + strconv.Quote(id))
+	}
+	return it
 }
 
 var blocks = []ulid.ULID{
@@ -120,6 +156,59 @@ func (c *recClient) Stop() {}
 type env struct {
 	cl *recClient
 	rc *storecache.RemoteIndexCache
+	mc *storecache.InMemoryIndexCache
+}
+
+func newMem(t testing.TB) *storecache.InMemoryIndexCache {
+	mc, err := storecache.NewInMemoryIndexCacheWithConfig(log.NewNopLogger(), nil, nil,
+		storecache.InMemoryIndexCacheConfig{MaxSize: 1 << 40, MaxItemSize: 1 << 20})
+	if err != nil {
+		t.Fatalf("HARNESS-ERROR NewInMemoryIndexCacheWithConfig: %v", err)
+	}
+	return mc
+}
+
+// memFetch looks the item up in the in-memory index cache.
+func memFetch(mc *storecache.InMemoryIndexCache, it Item) ([]byte, bool) {
+	ctx := context.Background()
+	switch it.Kind {
+	case "P":
+		l := labels.Label{Name: it.Name, Value: it.Value}
+		hits, _ := mc.FetchMultiPostings(ctx, blocks[it.Block], []labels.Label{l}, "t")
+		v, ok := hits[l]
+		return v, ok
+	case "EP":
+		return mc.FetchExpandedPostings(ctx, blocks[it.Block], promMatchers(it.Ms), "t")
+	case "S":
+		hits, _ := mc.FetchMultiSeries(ctx, blocks[it.Block], []storage.SeriesRef{storage.SeriesRef(it.ID)}, "t")
+		v, ok := hits[storage.SeriesRef(it.ID)]
+		return v, ok
+	}
+	panic("kind " + it.Kind)
+}
+
+func memStore(mc *storecache.InMemoryIndexCache, it Item, data []byte) {
+	switch it.Kind {
+	case "P":
+		mc.StorePostings(blocks[it.Block], labels.Label{Name: it.Name, Value: it.Value}, data, "t")
+	case "EP":
+		mc.StoreExpandedPostings(blocks[it.Block], promMatchers(it.Ms), data, "t")
+	case "S":
+		mc.StoreSeries(blocks[it.Block], storage.SeriesRef(it.ID), data, "t")
+	default:
+		panic("kind " + it.Kind)
+	}
+}
+
+// memEligible: the in-memory cache has no compression dimension, so only one compression setting per item goes there.
+func memEligible(it Item) bool {
+	switch it.Kind {
+	case "S":
+		return true
+	case "P", "EP":
+		return it.Comp == "dss"
+	}
+	return false
 }
 
 func newEnv(t testing.TB, withData bool) *env {
@@ -131,7 +220,7 @@ func newEnv(t testing.TB, withData bool) *env {
 	if err != nil {
 		t.Fatalf("HARNESS-ERROR NewRemoteIndexCache: %v", err)
 	}
-	return &env{cl: cl, rc: rc}
+	return &env{cl: cl, rc: rc, mc: newMem(t)}
 }
 
 func promMatchers(ms []M) []*labels.Matcher {
@@ -215,43 +304,91 @@ var (
 	tokP  = []string{"a", "b", ":", "\\"}
 	tokEP = []string{"a", ";", "\"", "\\", "=", "~", ";a=", "\";a=\""}
 	tokMC = []string{"a", "=", "~", "!", "=~", ":", "1", "\"", "\\"}
+	// characters of UTF-8 label names that are matcher syntax or key separators somewhere in the key builders
+	tokN = []string{"a", "b", "!", "=", "~", "\"", ";", ":", ",", " ", "{"}
+	// values used with the tokN names (quick: 0..1 characters, thorough: 0..2)
+	tokNV = []string{"a", "b", "=", "~", "!", "\"", ";"}
 )
 
-func genItems(r *vlib.R) iter.Seq[Item] {
+// G is a generated item: Mem = also driven through the in-memory index cache (bounded to keep the LRU small),
+// Src = its rendered matcher string is a source of the parse-back closure.
+type G struct {
+	It  Item
+	Mem bool
+	Src bool
+}
+
+func genItems(r *vlib.R) iter.Seq[G] {
 	pLen := vlib.Pick(r, 4, 5)
 	epName := vlib.Pick(r, 2, 3)
 	mcName := vlib.Pick(r, 2, 3)
-	return func(yield func(Item) bool) {
+	nLen := vlib.Pick(r, 3, 4)
+	nvLen := vlib.Pick(r, 1, 2)
+	return func(yield func(G) bool) {
 		// S
 		for b := range blocks {
 			for _, id := range []uint64{0, 1, 9, 10, 11, 100, 1 << 32, 1<<64 - 1} {
-				if !yield(Item{Kind: "S", Block: b, ID: id}) {
+				if !yield(G{It: Item{Kind: "S", Block: b, ID: id}, Mem: true}) {
 					return
 				}
 			}
 		}
-		// P: names are non-empty (Prometheus rejects empty label names), values may be empty
-		for _, n := range words(tokP, 1, pLen) {
-			for _, v := range words(tokP, 0, pLen) {
-				full := len(n) <= 3 && len(v) <= 3
-				for b := range blocks {
-					for _, comp := range []string{"dss", ""} {
-						if !full && (b != 0 || comp != "dss") {
-							continue
-						}
-						if !yield(Item{Kind: "P", Block: b, Comp: comp, Name: n, Value: v}) {
-							return
+		// EP: the empty list
+		if !yield(G{It: Item{Kind: "EP", Comp: "dss"}, Mem: true, Src: true}) {
+			return
+		}
+		// EP, UTF-8 names: every single matcher with a name over tokN (matcher syntax / separators inside the NAME)
+		shortV := map[string]bool{}
+		for _, v := range words(tokNV, 0, 1) {
+			shortV[v] = true
+		}
+		for _, n := range words(tokN, 1, nLen) {
+			for t := 0; t < 4; t++ {
+				for _, v := range words(tokNV, 0, nvLen) {
+					if len(n) > 3 && !shortV[v] {
+						continue // thorough: long names with short values, short names with long values
+					}
+					quick := len(n) <= 3 && shortV[v]
+					small := len(n) <= 2 && len(v) <= 1
+					for b := range blocks {
+						for _, comp := range []string{"dss", ""} {
+							if !(len(n) <= 1 && len(v) <= 1) && (b != 0 || comp != "dss") {
+								continue
+							}
+							if !yield(G{It: Item{Kind: "EP", Block: b, Comp: comp, Ms: []M{{n, t, v}}}, Mem: quick, Src: small && b == 0 && comp == "dss"}) {
+								return
+							}
 						}
 					}
 				}
 			}
 		}
-		// EP: the empty list, every single matcher, every pair over a reduced matcher set
-		if !yield(Item{Kind: "EP", Comp: "dss"}) {
-			return
+		// EP, UTF-8 names: every pair over a reduced matcher set
+		var redN []M
+		for _, n := range []string{"a", "a!", "=", "\"", ",", " "} {
+			for t := 0; t < 4; t++ {
+				for _, v := range []string{"", "a"} {
+					redN = append(redN, M{n, t, v})
+				}
+			}
 		}
+		for _, m1 := range redN {
+			for _, m2 := range redN {
+				if !yield(G{It: Item{Kind: "EP", Comp: "dss", Ms: []M{m1, m2}}, Mem: true, Src: true}) {
+					return
+				}
+			}
+		}
+		// EP: every single matcher over the key builder's own tokens, every pair over a reduced matcher set
 		epNames := words(tokEP, 1, epName)
 		epValues := words(tokEP, 0, 3)
+		memName, memValue := map[string]bool{}, map[string]bool{}
+		for _, n := range words(tokEP, 1, 2) {
+			memName[n] = true
+		}
+		for _, v := range words(tokEP, 0, 2) {
+			memValue[v] = true
+		}
 		for _, n := range epNames {
 			for t := 0; t < 4; t++ {
 				for _, v := range epValues {
@@ -261,7 +398,7 @@ func genItems(r *vlib.R) iter.Seq[Item] {
 							if !small && (b != 0 || comp != "dss") {
 								continue
 							}
-							if !yield(Item{Kind: "EP", Block: b, Comp: comp, Ms: []M{{n, t, v}}}) {
+							if !yield(G{It: Item{Kind: "EP", Block: b, Comp: comp, Ms: []M{{n, t, v}}}, Mem: memName[n] && memValue[v], Src: small && b == 0 && comp == "dss"}) {
 								return
 							}
 						}
@@ -279,7 +416,7 @@ func genItems(r *vlib.R) iter.Seq[Item] {
 		}
 		for _, m1 := range red {
 			for _, m2 := range red {
-				if !yield(Item{Kind: "EP", Comp: "dss", Ms: []M{m1, m2}}) {
+				if !yield(G{It: Item{Kind: "EP", Comp: "dss", Ms: []M{m1, m2}}, Mem: true, Src: true}) {
 					return
 				}
 			}
@@ -288,13 +425,60 @@ func genItems(r *vlib.R) iter.Seq[Item] {
 		for _, n := range words(tokMC, 1, mcName) {
 			for t := 0; t < 4; t++ {
 				for _, v := range words(tokMC, 0, 3) {
-					if !yield(Item{Kind: "MC", Name: n, Type: t, Value: v}) {
+					if !yield(G{It: Item{Kind: "MC", Name: n, Type: t, Value: v}}) {
 						return
 					}
 				}
 			}
 		}
+		// P: names are non-empty (Prometheus rejects empty label names), values may be empty
+		for _, n := range words(tokP, 1, pLen) {
+			for _, v := range words(tokP, 0, pLen) {
+				full := len(n) <= 3 && len(v) <= 3
+				for b := range blocks {
+					for _, comp := range []string{"dss", ""} {
+						if !full && (b != 0 || comp != "dss") {
+							continue
+						}
+						if !yield(G{It: Item{Kind: "P", Block: b, Comp: comp, Name: n, Value: v}, Mem: full}) {
+							return
+						}
+					}
+				}
+			}
+		}
 	}
+}
+
+// parseBack reads the string the real code emitted for a matcher list back as ONE matcher in every possible way: the
+// text before an operator occurrence is the name (as is, and unquoted when it is a quoted Go string), the text after it
+// the value (likewise). The results are ordinary EP items; whether any of them shares a key with its source is for
+// the key maps to say.
+func parseBack(src Item, s string) []Item {
+	var out []Item
+	variants := func(x string) []string {
+		vs := []string{x}
+		if u, err := strconv.Unquote(x); err == nil && u != x && utf8.ValidString(u) {
+			vs = append(vs, u)
+		}
+		return vs
+	}
+	for i := 1; i < len(s); i++ {
+		for t, op := range typeStr {
+			if !strings.HasPrefix(s[i:], op) {
+				continue
+			}
+			for _, n := range variants(s[:i]) {
+				if n == "" {
+					continue
+				}
+				for _, v := range variants(s[i+len(op):]) {
+					out = append(out, Item{Kind: "EP", Block: src.Block, Comp: src.Comp, Ms: []M{{n, t, v}}})
+				}
+			}
+		}
+	}
+	return out
 }
 
 func nontrivial(it Item) bool {
@@ -308,7 +492,7 @@ func nontrivial(it Item) bool {
 			return true
 		}
 		for _, m := range it.Ms {
-			if strings.ContainsAny(m.N+m.V, ";\"\\") {
+			if strings.ContainsAny(m.N+m.V, ";\"\\!=~:, {") {
 				return true
 			}
 		}
@@ -383,15 +567,27 @@ func confirm(t testing.TB, a, b Item) string {
 		lb := labels.Label{Name: b.Name, Value: b.Value}
 		e.rc.StorePostings(blocks[a.Block], labels.Label{Name: a.Name, Value: a.Value}, []byte("data-of-A"), "t")
 		hits, _ := e.rc.FetchMultiPostings(ctx, blocks[b.Block], []labels.Label{lb}, "t")
+		var out []string
 		if string(hits[lb]) == "data-of-A" {
-			return "confirmed on RemoteIndexCache: after StorePostings(A), FetchMultiPostings(B) is a hit returning A's bytes"
+			out = append(out, "confirmed on RemoteIndexCache: after StorePostings(A), FetchMultiPostings(B) is a hit returning A's bytes")
 		}
+		memStore(e.mc, a, []byte("data-of-A"))
+		if v, ok := memFetch(e.mc, b); ok && string(v) == "data-of-A" {
+			out = append(out, "confirmed on InMemoryIndexCache: after StorePostings(A), FetchMultiPostings(B) is a hit returning A's bytes")
+		}
+		return strings.Join(out, "; ")
 	case a.Kind == "EP" && b.Kind == "EP" && a.Comp == b.Comp:
 		e := newEnv(t, true)
 		e.rc.StoreExpandedPostings(blocks[a.Block], promMatchers(a.Ms), []byte("data-of-A"), "t")
+		var out []string
 		if v, ok := e.rc.FetchExpandedPostings(ctx, blocks[b.Block], promMatchers(b.Ms), "t"); ok && string(v) == "data-of-A" {
-			return "confirmed on RemoteIndexCache: after StoreExpandedPostings(A), FetchExpandedPostings(B) is a hit returning A's bytes"
+			out = append(out, "confirmed on RemoteIndexCache: after StoreExpandedPostings(A), FetchExpandedPostings(B) is a hit returning A's bytes")
 		}
+		memStore(e.mc, a, []byte("data-of-A"))
+		if v, ok := memFetch(e.mc, b); ok && string(v) == "data-of-A" {
+			out = append(out, "confirmed on InMemoryIndexCache: after StoreExpandedPostings(A), FetchExpandedPostings(B) is a hit returning A's bytes")
+		}
+		return strings.Join(out, "; ")
 	case a.Kind == "MC" && b.Kind == "MC":
 		var opts []storecache.MatcherCacheOption
 		how := "default LruMatchersCache"
@@ -416,29 +612,50 @@ func confirm(t testing.TB, a, b Item) string {
 	return ""
 }
 
+// safely runs f on the code under test; a panic there is a finding, not a harness crash.
+func safely(f func()) (panicked string) {
+	defer func() {
+		if x := recover(); x != nil {
+			panicked = fmt.Sprint(x)
+			if strings.HasPrefix(panicked, "HARNESS-ERROR") || strings.HasPrefix(panicked, "kind ") {
+				panic(x)
+			}
+		}
+	}()
+	f()
+	return ""
+}
+
 func TestCheck(t *testing.T) {
 	r := vlib.New(t, "C13")
 	defer r.Finish()
-	r.Rule("items: P (2 blocks x {dss,none} x name 1..L tokens x value 0..L tokens over {a,b,':','\\'}), EP (empty list, all single matchers with name/value words over " +
-		"{a ; \" \\ = ~ `;a=` `\";a=\"`}, all pairs over a reduced set), S (2 blocks x 8 refs), MC (name x 4 types x value over {a = ~ ! =~ : 1 \" \\}); every key the real code " +
-		"derives for an item (CacheKey.String and the keys RemoteIndexCache hands to its client on store and on fetch; matchers-cache cacheKey) is inserted into one map per " +
-		"cache namespace; non-trivial = distinct item containing a separator/operator character of its key builder (or a 2-matcher list); extra: distinct keys per namespace")
+	r.Rule("items: P (2 blocks x {dss,none} x name 1..L tokens x value 0..L tokens over {a,b,':','\\'}), EP (empty list; all single matchers with name/value words over " +
+		"{a ; \" \\ = ~ `;a=` `\";a=\"`}; all single matchers with UTF-8 names of 1..3 (thorough 4) characters over {a b ! = ~ \" ; : , ' ' {} x 4 types x values of 0..1 " +
+		"(thorough 2) characters over {a b = ~ ! \" ;}; all pairs over two reduced matcher sets (names a ; and names a a! = \" , ' '); parse-back closure: the string the real " +
+		"code emits for the empty list, every pair and every small single matcher, cut at every operator occurrence and read back as one matcher), S (2 blocks x 8 refs), " +
+		"MC (name x 4 types x value over {a = ~ ! =~ : 1 \" \\}); every key the real code derives for an item (CacheKey.String and the keys RemoteIndexCache hands to its " +
+		"client on store and on fetch; matchers-cache cacheKey) is inserted into one map per cache namespace, and a bounded subset of the index items (S; P with name/value <= 3 characters; EP token words " +
+		"with names <= 2 and values <= 2 tokens; the quick-tier UTF-8-name items; all pairs; all parse-back items) is looked up in and then stored into one real " +
+		"InMemoryIndexCache (a hit before the store = shared in-memory map key); non-trivial = distinct item containing a separator/operator " +
+		"character of its key builder (or a 2-matcher list); extra: distinct keys per namespace")
 	r.Assume("Equality of the blake2b-256 digests inside P:/EP: keys is taken as equality of the hashed strings.",
-		"Names and values are ASCII words over the token alphabets (all valid UTF-8, names non-empty); block ids are two fixed ULIDs.")
+		"Names and values are ASCII words over the token alphabets (all valid UTF-8, names non-empty); block ids are two fixed ULIDs.",
+		"The in-memory index cache is driven with one compression setting per item (it has no compression dimension) and with a bounded subset of the items (memory).")
 
 	e := newEnv(t, false)
 	confirmed := map[string]int{}
 	bestLen := map[string]int{}
-	report := func(a, b Item, key string) {
-		sig := classify(a, b)
-		desc := fmt.Sprintf("key %q is shared by A=%s and B=%s", key, show(a), show(b))
+	report := func(a, b Item, how, sigPrefix string) {
+		sig := sigPrefix + classify(a, b)
+		desc := fmt.Sprintf("%s is shared by A=%s and B=%s", how, show(a), show(b))
 		cj, _ := json.Marshal(Case{A: a, B: &b})
 		// vlib keeps the smallest artefact per signature: confirm the first few and every new smallest one
 		if best, ok := bestLen[sig]; confirmed[sig] < 25 || !ok || len(cj) < best {
 			if !ok || len(cj) < best {
 				bestLen[sig] = len(cj)
 			}
-			if c := confirm(t, a, b); c != "" {
+			var c string
+			if p := safely(func() { c = confirm(t, a, b) }); p == "" && c != "" {
 				confirmed[sig]++
 				desc += "; " + c
 				r.Add("collisions_confirmed_end_to_end", 1)
@@ -447,6 +664,9 @@ func TestCheck(t *testing.T) {
 		bb := b
 		r.Violation(sig, desc, Case{A: a, B: &bb})
 	}
+	panicked := func(it Item, where, p string) {
+		r.Violation("panic-in-key-path:"+it.Kind, fmt.Sprintf("%s panicked for %s: %s", where, show(it), p), Case{A: it, B: &it})
+	}
 
 	var rc Case
 	if r.ReplayCase(&rc) {
@@ -454,51 +674,155 @@ func TestCheck(t *testing.T) {
 		if rc.B == nil {
 			t.Fatalf("HARNESS-ERROR replay artefact has no second item")
 		}
+		var ka, kb []string
+		if p := safely(func() { ka = e.keysOf(rc.A) }); p != "" {
+			panicked(rc.A, "key computation", p)
+			return
+		}
+		if p := safely(func() { kb = e.keysOf(*rc.B) }); p != "" {
+			panicked(*rc.B, "key computation", p)
+			return
+		}
 		if rc.A.ident() == rc.B.ident() {
 			return
 		}
 		if space(rc.A) != space(*rc.B) {
 			return
 		}
-		kb := map[string]struct{}{}
-		for _, k := range e.keysOf(*rc.B) {
-			kb[k] = struct{}{}
+		set := map[string]struct{}{}
+		for _, k := range kb {
+			set[k] = struct{}{}
 		}
-		for _, k := range e.keysOf(rc.A) {
-			if _, ok := kb[k]; ok {
-				report(rc.A, *rc.B, k)
+		for _, k := range ka {
+			if _, ok := set[k]; ok {
+				report(rc.A, *rc.B, fmt.Sprintf("key %q", k), "")
 				return
+			}
+		}
+		if memEligible(rc.A) && memEligible(*rc.B) {
+			var hit bool
+			if p := safely(func() {
+				memStore(e.mc, rc.A, []byte("data-of-A"))
+				_, hit = memFetch(e.mc, *rc.B)
+			}); p != "" {
+				panicked(*rc.B, "InMemoryIndexCache store/fetch", p)
+				return
+			}
+			if hit {
+				report(rc.A, *rc.B, "the InMemoryIndexCache map key", "inmemory:")
 			}
 		}
 		return
 	}
 
-	var items []Item
-	maps := []map[string]int32{{}, {}}
-	var n int64
-	for it := range genItems(r) {
+	// Only the identities of the items are kept, in fixed-size arenas: first-touch memory is what costs time on a busy
+	// machine, and a growing []Item would be re-allocated and copied over and over.
+	const chunk = 1 << 14
+	type ref struct {
+		a, n uint16
+		off  uint32
+	}
+	var refs [][]ref
+	arenas := [][]byte{make([]byte, 0, 1<<20)}
+	nItems := 0
+	identAt := func(i int32) string {
+		x := refs[i/chunk][i%chunk]
+		return string(arenas[x.a][x.off : x.off+uint32(x.n)])
+	}
+	at := func(i int32) Item { return parseIdent(identAt(i)) }
+	maps := []map[string]int32{make(map[string]int32, vlib.Pick(r, 1<<19, 1<<22)), make(map[string]int32, vlib.Pick(r, 1<<19, 1<<22))}
+	var idbuf []byte
+	var n, nClosure, nMem int64
+	seenC := map[string]struct{}{}
+	// process files one item under its keys; it returns false when the code under test panicked.
+	process := func(it Item, mem bool) bool {
 		n++
-		if n%8192 == 0 && r.Expired("item enumeration stopped early") {
-			break
+		if n <= 16 || n%61 == 0 {
+			r.Sample(Case{A: it})
 		}
-		r.Sample(Case{A: it})
+		idbuf = it.appendIdent(idbuf[:0])
+		id := string(idbuf)
 		if nontrivial(it) {
-			r.Nontrivial(it.ident())
+			r.Nontrivial(id)
 		}
-		idx := int32(len(items))
-		items = append(items, it)
+		idx := int32(nItems)
+		if nItems%chunk == 0 {
+			refs = append(refs, make([]ref, 0, chunk))
+		}
+		ar := len(arenas) - 1
+		if cap(arenas[ar])-len(arenas[ar]) < len(idbuf) {
+			arenas = append(arenas, make([]byte, 0, 1<<20))
+			ar++
+		}
+		refs[len(refs)-1] = append(refs[len(refs)-1], ref{a: uint16(ar), n: uint16(len(idbuf)), off: uint32(len(arenas[ar]))})
+		arenas[ar] = append(arenas[ar], idbuf...)
+		nItems++
+		var keys []string
+		if p := safely(func() { keys = e.keysOf(it) }); p != "" {
+			panicked(it, "key computation", p)
+			return false
+		}
 		m := maps[space(it)]
-		for _, k := range e.keysOf(it) {
+		other := int32(-1)
+		for _, k := range keys {
 			if j, ok := m[k]; ok {
-				if j != idx && items[j].ident() != it.ident() {
-					report(items[j], it, k)
+				if j != idx && identAt(j) != id {
+					report(at(j), it, fmt.Sprintf("key %q", k), "")
+					other = j
 				}
 				continue
 			}
 			m[k] = idx
 		}
+		if mem && memEligible(it) {
+			nMem++
+			var data []byte
+			var hit bool
+			if p := safely(func() {
+				if data, hit = memFetch(e.mc, it); !hit {
+					memStore(e.mc, it, []byte(strconv.Itoa(int(idx))))
+				}
+			}); p != "" {
+				panicked(it, "InMemoryIndexCache store/fetch", p)
+				return false
+			}
+			if hit {
+				j, err := strconv.Atoi(string(data))
+				if err != nil || j < 0 || j >= nItems {
+					panic(fmt.Sprintf("HARNESS-ERROR in-memory cache returned %q", data))
+				}
+				if int32(j) != other && identAt(int32(j)) != id {
+					report(at(int32(j)), it, "the InMemoryIndexCache map key", "inmemory:")
+				}
+			}
+		}
+		return true
+	}
+	for g := range genItems(r) {
+		if n%8192 < 64 && r.Expired("item enumeration stopped early") {
+			break
+		}
+		if !process(g.It, g.Mem) || !g.Src {
+			continue
+		}
+		var s string
+		if p := safely(func() { s = storecache.LabelMatchersToString(promMatchers(g.It.Ms)) }); p != "" {
+			panicked(g.It, "LabelMatchersToString", p)
+			continue
+		}
+		for _, c := range parseBack(g.It, s) {
+			id := c.ident()
+			if _, dup := seenC[id]; dup || id == g.It.ident() {
+				continue
+			}
+			seenC[id] = struct{}{}
+			nClosure++
+			process(c, true)
+		}
 	}
 	r.Eval(n)
+	r.Set("parse_back_items", nClosure)
+	r.Set("items_through_inmemory_cache", nMem)
 	r.Set("distinct_keys_index_namespace", len(maps[0]))
 	r.Set("distinct_keys_matchers_cache", len(maps[1]))
 }
